@@ -164,6 +164,18 @@ def maxDeath : List (α × α) → Option α
   | [] => none
   | p :: t => some (t.foldl (fun m q => if m < q.2 then q.2 else m) p.2)
 
+/-- `if start is None: start = min(self.dgms, key=itemgetter(0))[0]` -/
+def resolveStart (start : Option α) (bars : List (α × α)) : Option α :=
+  match start with
+  | some s => some s
+  | none => minBirth bars
+
+/-- `if stop is None: stop = max(self.dgms, key=itemgetter(1))[1]` -/
+def resolveStop (stop : Option α) (bars : List (α × α)) : Option α :=
+  match stop with
+  | some e => some e
+  | none => maxDeath bars
+
 /-- `PersLandscapeApprox(dgms=…, hom_deg=…, start=…, stop=…, num_steps=…).values` -/
 def persLandscapeApprox (dgms : List (Dgm α)) (homDeg : Nat) (start stop : Option α) (n : Nat) :
     Except Err (Values α) :=
@@ -172,10 +184,10 @@ def persLandscapeApprox (dgms : List (Dgm α)) (homDeg : Nat) (start stop : Opti
   | none => .error .homDeg
   | some d =>
     let bars := finiteBars d
-    match (match start with | some s => some s | none => minBirth bars) with
+    match resolveStart start bars with
     | none => .error .emptyDiagram
     | some s =>
-      match (match stop with | some e => some e | none => maxDeath bars) with
+      match resolveStop stop bars with
       | none => .error .emptyDiagram
       | some e => if n = 0 then .error .noSteps else .ok (computeLandscape bars s e n)
 
@@ -240,10 +252,10 @@ def Landscaper.fit (self : Landscaper α) (X : List (List (α × α))) : Except 
   match X[self.homDeg]? with
   | none => .error .homDeg
   | some d =>
-    match (match self.start with | some s => some s | none => minBirth d) with
+    match resolveStart self.start d with
     | none => .error .emptyDiagram
     | some s =>
-      match (match self.stop with | some e => some e | none => maxDeath d) with
+      match resolveStop self.stop d with
       | none => .error .emptyDiagram
       | some e => .ok { self with start := some s, stop := some e }
 
